@@ -305,3 +305,9 @@ BLOOM = {'seed_mult': 0xFBA4C795, 'max_size': 36000, 'max_funcs': 50, 'c1': 0xcc
 RPC_ERROR_CODES = {-2, -5, -8, -25, -26, -27, -28}
 
 SIGNED_MESSAGE_MAGIC = 'Bitcoin Signed Message:\n'
+
+
+# protocol versions from which the reader must take the trailing fields of `version` from the wire
+VERSION_GATES = {
+    'msg_version': {'addrFrom': 106, 'nStartingHeight': 209, 'fRelay': 70001},
+}
